@@ -150,10 +150,13 @@ def gen_sequential(rng, seq=None):
             cmds.append(["sleep", rng.choice([61.0, 75.0, 3600.0])])
             cmds.append(["settle"])
     case["commands"] = cmds
+    if seq is None and rng.random() < 0.08 and not prog.get("tc_listener"):
+        # a subscriber that starts listening for time changes in the middle of a run
+        case["late_tc"] = rng.randint(1, 4)
     return case
 
 
-CB_CMDS = [["stop"], ["stop"], ["stop"], ["start"], ["step"], ["run_up_to", 4.0],
+CB_CMDS = [["stop"], ["stop"], ["stop"], ["start"], ["step"], ["run_up_to", 4.0], ["cleanup"],
            ["initialize"], ["end_replication"]]
 LISTENER_TYPES = ["START_REPLICATION", "STARTING", "START", "STOPPING", "STOP",
                   "TIME_CHANGED", "WARMUP", "END_REPLICATION"]
@@ -192,6 +195,8 @@ def gen_overlap(rng, seed, tier):
     if rng.random() < 0.15:
         case["oneshot_listeners"] = rng.sample(LISTENER_TYPES, rng.randint(1, 3))
     eids = program.event_ids(prog)
+    if rng.random() < 0.08 and not prog.get("tc_listener"):
+        case["late_tc"] = rng.randint(1, 4)
     # commands from handlers
     if rng.random() < 0.35:
         for _ in range(rng.choice([1, 1, 2])):
@@ -201,6 +206,11 @@ def gen_overlap(rng, seed, tier):
             if prog["clock"] == "int" and len(cmd) > 1:
                 cmd[1] = int(cmd[1])
             al.insert(rng.randint(0, len(al)), ["cmd"] + cmd)
+        for al in prog["events"].values():
+            # cleanup() is the last thing its handler does (what a lifecycle command
+            # does on a simulator that was just cleaned up is outside the generated space)
+            if ["cmd", "cleanup"] in al:
+                al[:] = [a for a in al if a != ["cmd", "cleanup"]] + [["cmd", "cleanup"]]
     # injected handler faults
     if rng.random() < 0.2:
         e = rng.choice(eids)
@@ -336,8 +346,26 @@ def gen_overlap(rng, seed, tier):
     return case
 
 
+def _h3_witness():
+    import json
+    import os
+    p = os.path.join(os.path.dirname(os.path.dirname(os.path.dirname(
+        os.path.abspath(__file__)))), "regress", "known_findings", "H3.json")
+    try:
+        with open(p) as f:
+            return json.load(f)["case"]
+    except (OSError, ValueError, KeyError):
+        return None
+
+
 def generate(seed, tier, idx=0):
     rng = common.rng_for(seed, "case")
+    if idx == n_exh(tier):
+        # the recorded witness of open finding H3 (a replay of a fixed schedule: it
+        # reproduces on the tree it was recorded on and is an ordinary case elsewhere)
+        w = _h3_witness()
+        if w is not None:
+            return w
     if idx < n_exh(tier):
         c = gen_sequential(rng, exhaustive_sequences(tier)[idx])
         if c is None:
@@ -434,6 +462,11 @@ def evaluate_overlap(case, r):
         # periods expire: not judged)
         findings.append(("nested-simulator", "a second simulator run from a callback of "
                          "the first one: " + nested_bad))
+    if any(c["name"] == "end_replication" and c["callback"]
+           and c["before"][1] == "NOT_INITIALIZED" for c in cmds):
+        # end_replication() on a simulator that a handler has just cleaned up: outside
+        # the generated space (can only arise while shrinking)
+        return []
     for c in cmds:
         if c["name"] not in ("initialize", "cleanup"):
             continue
@@ -457,6 +490,11 @@ def evaluate_overlap(case, r):
                 return [("initialize-admitted-while-running",
                          "initialize #%d issued from %s was admitted in run_state %s"
                          % (c["index"], c.get("where", "driver"), adm))]
+            if c["callback"] and c["tid"] == 0 and c["name"] == "cleanup" \
+                    and (c.get("outer") or "").startswith("step#"):
+                # cleanup() from a handler executed by step(): the caller itself is the
+                # one that 'runs', the run thread is at rest -> no grace period involved
+                continue
             if adm in ("STOPPING", "STARTING", "STARTED") \
                     or c["before"][0] in ("STOPPING", "STARTING", "STARTED") \
                     or (c["callback"] and c["tid"] != 0):
@@ -813,6 +851,25 @@ def known_finding(finding, H):
                         return None
                     ok = True
         return "H1" if ok else None
+    if finding[0] == "command-raised-non-dsol-error":
+        # H3: two lifecycle commands on different threads inside cleanup() at once;
+        # the loser dereferences the worker reference the winner has set to None
+        import re
+        m = re.match(r"command #(\d+) (\w+) .*raised exc:AttributeError$", finding[1])
+        if not m or m.group(2) not in ("initialize", "cleanup", "stop"):
+            return None
+        cmds = devscommon.split_history(H)
+        c = next((x for x in cmds if x["index"] == int(m.group(1))), None)
+        if c is None or "invoke_pos" not in c:
+            return None
+        lo, hi = c["invoke_pos"], c.get("return_pos", len(H))
+        for o in cmds:
+            if o is c or o["name"] not in ("initialize", "cleanup") or "invoke_pos" not in o:
+                continue
+            if o.get("tid") != c.get("tid") and o["invoke_pos"] < hi \
+                    and o.get("return_pos", len(H)) > lo:
+                return "H3"
+        return None
     return None
 
 
